@@ -135,8 +135,24 @@ def s1_rawind(ctx, rule='C14.S1'):
                     ctx.check(equal(val, Lin.atom(('m',))), rule, co, 'rawInd block', 'rawInd of probe k = merged map - o_k = original map of probe k',
                               'rawInd of probe k is %s under the hypothesis (merged block = m + o, subtracted offset = o): not the original map m' % val)
                 nxt = nfb(st2.env.get(acc))
-                ctx.check(equal(nxt, merge_next), rule, co, 'offset recurrence', 'inductive step: the offset for the next probe equals the merger\'s next offset (%s)' % merge_next,
-                          'after probe k the exporter subtracts %s for the next probe, the merger added %s: from the third probe on rawInd is wrong' % (nxt, merge_next))
+
+                def closed(l):
+                    # a normal form over the induction variables only (m, o, constants, max / amax of such): a difference between closed forms is definite
+                    from vlib.sym import Lin as _L
+                    if isinstance(l, _L):
+                        return all(closed(k) for k in l.d)
+                    if l == '1':
+                        return True
+                    if isinstance(l, tuple):
+                        if len(l) == 1 and isinstance(l[0], str):
+                            return True
+                        if l and l[0] in ('amax', 'amin', 'max', 'min', 'fdiv', 'prod'):
+                            return all(closed(x) for x in l[1:])
+                    return False
+                ctx.tri(equal(nxt, merge_next), (not equal(nxt, merge_next)) and closed(nxt), rule, co, 'offset recurrence',
+                        'inductive step: the offset for the next probe equals the merger\'s next offset (%s)' % merge_next,
+                        'after probe k the exporter subtracts %s for the next probe, the merger added %s: from the third probe on rawInd is wrong' % (nxt, merge_next),
+                        'the offset carried to the next probe (%s) contains terms the walk does not interpret' % str(nxt)[:80])
                 init = [a for a in co.body() if isinstance(a, ast.Assign) and unparse(a.targets[0]) == acc]
                 iv = const_value(co.expand(init[0].value)) if init else None
                 ctx.tri(bool(init) and iv == 0 and not isinstance(iv, bool), bool(init) and ((isinstance(iv, (int, float)) and (iv != 0 or isinstance(iv, bool))) or
